@@ -455,6 +455,11 @@ Mon_C12(hp, hn, rp, r) ==
              IF ND(r, cr[j].node).role = "L" /\ ND(r, cr[j].node).lease THEN "deposed-leader-with-valid-lease"
              ELSE CascadeCause(hn), ToString(cr[j].node)) :
         j \in {x \in lr : \E m \in Leaders(r) : m # cr[x].node /\ ND(r, m).term > ND(r, cr[x].node).term}}
+     \* only a voter's acknowledgement can (re)validate a lease (C12: "a voter majority acknowledged it"; C27: a learner
+     \* never counts toward a lease quorum)
+     \cup {V("C12", "LeaseRenewedOnlyByVoterAck", r, "other", ToString(<<n, r.a.from>>)) :
+        n \in {x \in UpNodes(r) : r.a.a = "DeliverAR" /\ r.applied /\ r.a.to = x /\ ND(rp, x).up /\ ~ND(rp, x).lease
+                                  /\ ND(r, x).lease /\ r.a.from \notin Voters(rp, x)}}
      \cup {V("C12", "StepDownRevokesLease", r, "other", ToString(n)) :
         n \in {x \in UpNodes(r) : ND(r, x).role # "L" /\ ND(r, x).leaseAny
                                   /\ ~(ND(rp, x).up /\ ND(rp, x).role # "L" /\ ND(rp, x).leaseAny)}}
